@@ -274,7 +274,7 @@ func TestC15URL(t *testing.T) {
 		}
 		if msg != "" {
 			rec.Violation("url", msg, c)
-			rt.Fatalf("%s", msg)
+			rt.Fatalf("property violated (details in the replay file)")
 		}
 	})
 }
